@@ -434,6 +434,25 @@ def cmdModinit (args : List String) : String :=
     ",".intercalate ((DDP.Modules.initSeq g fuel.toNat! (nums imports)).map toString)
   | _ => "bad-request"
 
+/-- `sortaliases <len>.<gen>.<refs>;…`: keys in the order the candidates are tried;
+`resolve <len>.<gen>.<refs>.<fits>;…`: index of the selected candidate or `none` -/
+def parseCands (spec : String) : List DDP.Resolve.Cand :=
+  ((spec.splitOn ";").zipIdx).filterMap fun (c, i) =>
+    match (c.splitOn ".").map String.toNat! with
+    | [l, g, r] => some ⟨i, l, g, r, true⟩
+    | [l, g, r, f] => some ⟨i, l, g, r, f == 1⟩
+    | _ => none
+
+def cmdSortAliases (args : List String) : String :=
+  match args with
+  | [spec] => ";".intercalate ((DDP.Resolve.sortC (parseCands spec)).map fun c => s!"{c.len}.{c.gen}.{c.refs}")
+  | _ => "bad-request"
+
+def cmdResolve (args : List String) : String :=
+  match args with
+  | [spec] => (match DDP.Resolve.select (parseCands spec) with | some c => s!"{c.len}.{c.gen}.{c.refs}" | none => "none")
+  | _ => "bad-request"
+
 def dispatch (line : String) : String :=
   match (line.splitOn " ").filter (· ≠ "") with
   | "scan" :: args => cmdScan args
@@ -456,6 +475,8 @@ def dispatch (line : String) : String :=
   | "typos" :: args => cmdTypos args
   | "unify" :: args => cmdUnify args
   | "modinit" :: args => cmdModinit args
+  | "sortaliases" :: args => cmdSortAliases args
+  | "resolve" :: args => cmdResolve args
   | _ => "bad-request"
 
 
